@@ -19,3 +19,9 @@ package stats
 //@   props C14 C11
 //@   requires op != nil
 //@   modifies op.count, op.nanos
+
+// The table writer reads every counter once, atomically, into a private copy and formats the copy.
+//@ spec WriteTable(names, ops, w)
+//@   props C14
+//@   requires len(names) == len(ops) && len(ops) <= 1024
+//@   modifies *
